@@ -2,7 +2,9 @@
 
 // Command verifharness drives the real semantic_firewall code for the /verif checks.
 // It is never written into /repo: the check driver builds it with
-//   go build -overlay <json> -tags verif ./cmd/verifharness
+//
+//	go build -overlay <json> -tags verif ./cmd/verifharness
+//
 // so it always compiles against /repo's current working tree and can import internal/...
 package main
 
